@@ -187,11 +187,9 @@ impl NormalizingHasher {
         }
     }
 
-    pub(crate) fn done(mut self) -> Box<dyn DynDigest + Send> {
-        if self.text_mode && self.last_was_cr {
-            self.hasher.update(b"\n")
-        }
-
+    pub(crate) fn done(self) -> Box<dyn DynDigest + Send> {
+        // A trailing lone CR is not a line ending: like a lone CR in the middle of the text
+        // it is hashed unchanged (and `NormalizedReader` treats it the same way).
         self.hasher
     }
 
